@@ -68,7 +68,8 @@ struct WorldI : World {
     if (want.has("sender") && queued[0].sender != want.gets("sender")) { violate("C17.inject-sender", "envelope sender \"" + printable(queued[0].sender) + "\", expected \"" + printable(want.gets("sender")) + "\""); return; }
     // Bcc must not survive in the stored header
     { const std::string &b = queued[0].body; size_t he = b.find("\n\n"); std::string hdr = he == std::string::npos ? b : b.substr(0, he + 1); std::string lh = hdr; for (auto &c : lh) c = (char)tolower((unsigned char)c);
-      if (lh.compare(0, 4, "bcc:") == 0 || lh.find("\nbcc:") != std::string::npos) { violate("C17.bcc-kept", "stored header still has a Bcc field: \"" + printable(hdr, 200) + "\""); return; } }
+      bool kept = false; for (size_t at = 0; at != std::string::npos && at < lh.size(); at = lh.find('\n', at), at = at == std::string::npos ? at : at + 1) if (lh.compare(at, 3, "bcc") == 0) { size_t q = at + 3; while (q < lh.size() && (lh[q] == ' ' || lh[q] == '\t')) q++; if (q < lh.size() && lh[q] == ':') kept = true; }
+      if (kept) { violate("C17.bcc-kept", "stored header still has a Bcc field: \"" + printable(hdr, 200) + "\""); return; } }
     if (first_done) {
       if (queued.size() != 2) { violate("C17.reparse", "the rewritten header was refused on re-injection (exit " + std::to_string((status >> 8) & 0xff) + "): \"" + printable(queued[0].body, 300) + "\""); return; }
       std::vector<std::string> a = queued[0].rcpts, b = queued[1].rcpts; std::sort(a.begin(), a.end()); std::sort(b.begin(), b.end());
